@@ -843,6 +843,24 @@ static void c18_lit(const std::string& fn, const std::string& s) {
   O(fn + "|" + (want ? "valid" : "invalid") + "|" + (got ? "accepted" : "rejected"));
   if (got != want) V("C18|literal|" + fn + "|" + (got ? "accepts-undocumented|" : "rejects-documented|") + litclass(s), cs, fn + "(\"" + s + "\") = " + (got ? "true" : "false") + ", reference grammar says " + (want ? "valid" : "invalid"));
 }
+// XML white space: blank, tab, line feed and carriage return are equivalent around a literal (xs:double / xs:integer are
+// whitespace-collapsed; a DOS line end leaves a CR behind a value): the answer for a literal padded with ws must be the
+// answer for the same literal padded with blanks.  ws: 0 tab 1 LF 2 CR; pos: 0 before 1 after 2 both
+static void c18_litws(const std::string& fn, const std::string& s, int ws, int pos) {
+  static const char WS[3] = {'\t', '\n', '\r'}; static const char* WSN[3] = {"tab", "lf", "cr"};
+  C("evaluations"); C("transitions", 2);
+  std::string cs = "litws;" + fn + ";" + std::to_string(ws) + ";" + std::to_string(pos) + ";" + enc(s);
+  std::string a = s, b = s;
+  if (pos != 1) { a = std::string(1, WS[ws]) + a; b = " " + b; }
+  if (pos != 0) { a += WS[ws]; b += ' '; }
+  bool ga, gb; double va = 0, vb = 0;
+  if (fn == "IsFloat") { ga = GNU_gama::IsFloat(a); gb = GNU_gama::IsFloat(b); }
+  else if (fn == "IsInteger") { ga = GNU_gama::IsInteger(a); gb = GNU_gama::IsInteger(b); }
+  else { ga = GNU_gama::deg2gon(a, va); gb = GNU_gama::deg2gon(b, vb); }
+  if (gb) C("distinct_nontrivial");
+  O(fn + "|padded-with-" + WSN[ws] + "|" + (gb ? "valid" : "invalid") + "|" + (ga ? "accepted" : "rejected"));
+  if (ga != gb || (ga && va != vb)) V("C18|literal|" + fn + "|xml-whitespace-not-equivalent|" + WSN[ws], cs, fn + " of [" + enc(s) + "] padded with " + WSN[ws] + (pos == 0 ? " before" : pos == 1 ? " after" : " on both sides") + " = " + (ga ? "true" : "false") + ", padded with blanks = " + (gb ? "true" : "false"));
+}
 static std::string nth_string(uint64_t idx, int len) { std::string s(len, ' '); for (int i = len - 1; i >= 0; i--) { s[i] = ALPHA[idx % 9]; idx /= 9; } return s; }
 
 // ---------------------------------------------------------------- bearing / distance
@@ -900,6 +918,7 @@ static void c18_case(const std::string& cs) {
   else if (k == "dms") c18_dms(strtod(f.at(1).c_str(), nullptr));
   else if (k == "dmslit") c18_dmslit(I(1), I(2), I(3));
   else if (k == "lit") { size_t q = cs.find(';', p + 1); c18_lit(cs.substr(p + 1, q - p - 1), dec(q == std::string::npos ? "" : cs.substr(q + 1))); }
+  else if (k == "litws") { size_t q = p; for (int n = 0; n < 3; n++) q = cs.find(';', q + 1); c18_litws(f.at(1), dec(q == std::string::npos ? "" : cs.substr(q + 1)), I(2), I(3)); }
   else if (k == "brg") c18_brg(I(1), I(2), I(3), I(4));
   else { fprintf(stderr, "unknown c18 case %s\n", cs.c_str()); exit(3); }
 }
@@ -955,6 +974,9 @@ static int run_c18() {
         }
         c18_dms((double)((LD)k * PIl / 2000000));
         if (thorough() || k % 8 == 0) c18_dms(-(double)((LD)k * PIl / 2000000));
+        if (k % 64 == 0) for (int turn = 1; turn <= 3; turn++) {        // the same angle one, two and three turns outside [0, 2pi), both ways
+          c18_dms((double)((LD)k * PIl / 2000000 + turn * 2 * PIl)); c18_dms((double)((LD)k * PIl / 2000000 - (turn + 1) * 2 * PIl));
+        }
       }
     }
     // G2: values whose seconds are 60 - j*0.1*10^-p (round up for j<=5) around a (d, m) set, every precision and sign mode, both signs
@@ -1007,6 +1029,22 @@ static int run_c18() {
           std::string s = nth_string(i, len);
           if (len <= maxlen) { c18_lit("IsFloat", s); c18_lit("IsInteger", s); }
           if (len <= maxlen_dms) c18_lit("deg2gon", s);
+        }
+      }
+    }
+    // every string of length <= 4 (deg2gon: <= 6) x {tab, LF, CR} x {before, after, both} against the blank-padded twin
+    for (int len = 0; len <= 6; len++) {
+      uint64_t total = 1; for (int i = 0; i < len; i++) total *= 9;
+      const uint64_t BL = 6561;
+      for (uint64_t i0 = 0; i0 < total; i0 += BL) {
+        if (!take(unit++)) continue;
+        if (expired()) break;
+        for (uint64_t i = i0; i < i0 + BL && i < total; i++) {
+          std::string s = nth_string(i, len);
+          for (int ws = 0; ws < 3; ws++) for (int pos = 0; pos < 3; pos++) {
+            if (len <= 4) { c18_litws("IsFloat", s, ws, pos); c18_litws("IsInteger", s, ws, pos); }
+            c18_litws("deg2gon", s, ws, pos);
+          }
         }
       }
     }
